@@ -14,7 +14,7 @@ from harness.util import rel_close
 RULE = ("mixtures of 1..6 distinct substances (pool of real formulas + random 1..3-element formulas over the live "
         "periodic table) with positive proportions over many orders of magnitude (mostly [1e-3,1e3], traces down to 1e-12, bulk up to 1e6; scale factors 1e-9 … 1e9), every norm_type (NUMBER, "
         "NUMBER_FRACTION, MASS_FRACTION), natural / most-abundant, built from a dict or from the '<..>' string (proportions written as plain decimals, integers, 'd.' and e/E notation); components include bare nucleons and fully ionised species; "
-        "plus Substance composites (elements with counts, NUMBER mode); the avg row always and the components= selection on 40 % of the cases (impl vs model; selected rows must keep their values); scaling and both dualities on 30 % (quick) / all (thorough) of the cases; plus histories (a + b, add() on the sum, k * sum, add() on an operand; every live material re-read after every step); corpus first. non-trivial = at least two "
+        "plus Substance composites (elements with counts, NUMBER mode); the avg row always and the components= selection on 40 % of the cases (impl vs model; selected rows must keep their values); scaling and both dualities on 30 % (quick) / all (thorough) of the cases; plus the same mixture as expression string and as dict in both isotope modes alternately; number/mass densities attached to 30 % of the number-mode materials; a table of selected components and str() before the full table on half of the selections; histories (material + bare Substance with its own proportion; failing add() calls: if the call raises the material must read as before; a + b, add() on the sum, k * sum, add() on an operand; every live material re-read after every step); corpus first. non-trivial = at least two "
         "components with different masses; distinct = canonical JSON of (kind, mode, natural, components)")
 ASSUMPTIONS = [
     "proportions and component masses are positive finite floats (the property's quantifier); empty composites return None and are skipped",
@@ -106,6 +106,12 @@ def gen_case(rng, nat, allsym):
         props = [float(t) for t in tokens]          # the proportion that was written
         case["tokens"] = tokens
     case["comps"] = [[f, p] for f, p in zip(subs, props)]
+    if case["mode"] != "MASS_FRACTION" and rng.random() < 0.3:
+        # matter attached: the fractions must not care (MASS_FRACTION + density raises: known finding of C12)
+        case["density"] = rng.choice([["number_density", 2.5e19, "cm-3"], ["number_density", 1e25, "m-3"],
+                                      ["mass_density", 1.2, "kg/m3"], ["mass_density", 0.3, "g/cm3"]])
+        if rng.random() < 0.5:
+            case["volume"] = [rng.choice([1.0, 2.5]), rng.choice(["l", "m3", "cm3"])]
     return case
 
 
@@ -132,7 +138,13 @@ def build(case, comps=None, mode=None):
         expr = " ".join("%s <%s>" % (t, f) for t, (f, p) in zip(toks, comps))
     else:
         expr = {f: p for f, p in comps}
-    return Material(expr, natural=case["natural"], norm_type=getattr(Norm, mode))
+    kw = {}
+    if case.get("density") and mode != "MASS_FRACTION":
+        from scinumtools.units import Quantity
+        kw[case["density"][0]] = Quantity(case["density"][1], case["density"][2])
+        if case.get("volume"):
+            kw["volume"] = Quantity(case["volume"][0], case["volume"][1])
+    return Material(expr, natural=case["natural"], norm_type=getattr(Norm, mode), **kw)
 
 
 def observe(obj, quantity=False):
@@ -154,6 +166,12 @@ def run_impl(case):
     try:
         obj = build(case)
         quantity = case.get("quantity", False)
+        if case.get("sel_first") and case.get("keep"):
+            # reads are pure: a table of selected components (and str()) BEFORE the full table
+            ks = list(obj.components.keys())
+            kp = (case["keep"] + [True] * len(ks))[:len(ks)]
+            obj.data_composite(components=[k for k, b in zip(ks, kp) if b] or ks[:1], quantity=quantity)
+            str(obj)
         keys, ps, ms, xs, Xs, sx, sX = observe(obj, quantity)
     except Exception as e:  # noqa
         return {"err": repr(e)[:200]}
@@ -374,7 +392,7 @@ def history_stream(ctx, nat, allsym, n):
     """materials are combined and modified step by step; after every step every live material is re-read:
     it must hold the proportions that value semantics gives it (operands untouched) and report the fractions
     of those proportions"""
-    from scinumtools.materials import Material, Norm
+    from scinumtools.materials import Material, Substance, Norm
     entries = []        # (label, replay, expected comps, mode, snapshot)
     for i in range(n):
         natural = ctx.rng.random() < 0.6
@@ -392,7 +410,7 @@ def history_stream(ctx, nat, allsym, n):
         # the proportions every live material must hold come from the Lean object-store model
         fr = lambda l: [[f, frac(p)] for f, p in l]
         ops = [["new", fr(A)], ["new", fr(B)], ["plus", 0, 1], ["add", 2, subs[3], frac(padd)],
-               ["mul", 2, frac(k)], ["add", 1, subs[4], frac(padd)], ["plus", 0, 1]]
+               ["mul", 2, frac(k)], ["add", 1, subs[4], frac(padd)], ["plus", 0, 1], ["pluselem", 0, subs[4], frac(padd)]]
         r = ctx.driver.ask({"k": "ops", "ops": ops})
         if "ok" not in r:
             ctx.disagreement("history", replay, "driver error %s" % r)
@@ -418,8 +436,53 @@ def history_stream(ctx, nat, allsym, n):
             live.append(acc)
             for idx, obj in enumerate(live):
                 entries.append(("iadd:#%d" % idx, replay, snaps[6][idx], mode, snapshot(obj, mode)))
+            # material + a bare substance carrying its own proportion (in the material's norm)
+            live.append(live[0] + Substance(subs[4], proportion=padd, natural=natural))
+            for idx, obj in enumerate(live):
+                entries.append(("plus-substance:#%d" % idx, replay, snaps[7][idx], mode, snapshot(obj, mode)))
+            # operations that FAIL: whenever the call raises, the object must read as before
+            c = Material({f: p for f, p in A}, natural=natural, norm_type=nt)
+            before = snapshot(c, mode)
+            for what, args in (("add() of an unknown substance", ("Qq7", 1.0)), ("add() taking a component below zero", (A[0][0], -2.0 * A[0][1]))):
+                try:
+                    c.add(*args)
+                    break                    # accepted: the object is a different composite now (not judged here)
+                except Exception:  # noqa
+                    after = snapshot(c, mode)
+                    same = "err" not in after and "err" not in before and after["keys"] == before["keys"] and \
+                        all(close(a, b) for col in ("p", "x", "X", "sum") for a, b in zip(after[col], before[col]))
+                    if not same:
+                        ctx.violation("history:%s:failed-operation" % mode, "%s raised, but the material reads %s afterwards, before it read %s  [%s]" %
+                                      (what, {k: after.get(k) for k in ("keys", "p", "x", "X", "sum")}, {k: before.get(k) for k in ("keys", "p", "x", "X", "sum")}, json.dumps(replay)[:200]),
+                                      dict(replay, step="failed-operation"))
+                        break
         except Exception as e:  # noqa
             ctx.violation("history:%s:error" % mode, "combining valid materials raises %r  [%s]" % (e, json.dumps(replay)[:300]), replay)
+    # the same mixture given as an expression string and as a dict, in both isotope modes alternately within
+    # one process: the two inputs must report the same fractions (nothing parsed earlier may leak into a later one)
+    for i in range(max(4, n // 2)):
+        mode = ctx.rng.choice(MODES)
+        subs = ctx.rng.sample([f for f in POOL if "[" not in f], 3)
+        toks = [number_token(ctx.rng, rand_prop(ctx.rng)) for _ in subs]
+        comps = [[f, float(t)] for f, t in zip(subs, toks)]
+        for natural in (True, False, True):
+            replay = {"stream": "string-vs-dict", "mode": mode, "natural": natural, "comps": comps, "tokens": toks}
+            ctx.case(["string-vs-dict", replay], True)
+            ctx.count("history.string_vs_dict")
+            try:
+                nt = getattr(Norm, mode)
+                ms = Material(" ".join("%s <%s>" % (t, f) for t, f in zip(toks, subs)), natural=natural, norm_type=nt)
+                md = Material({f: p for f, p in comps}, natural=natural, norm_type=nt)
+                a, b = snapshot(ms, mode), snapshot(md, mode)
+                if "err" in a or "err" in b or a["keys"] != b["keys"] or \
+                        not all(close(u, v) for col in ("p", "m", "x", "X") for u, v in zip(a[col], b[col])):
+                    ctx.violation("history:%s:string-vs-dict" % mode, "the expression string and the dict of the same mixture (natural=%s) differ: string %s, dict %s" %
+                                  (natural, {k: a.get(k) for k in ("p", "m", "x", "X")}, {k: b.get(k) for k in ("p", "m", "x", "X")}), replay)
+                    break
+                entries.append(("string", replay, comps, mode, a))
+            except Exception as e:  # noqa
+                ctx.violation("history:%s:error" % mode, "building a valid mixture raises %r  [%s]" % (e, json.dumps(replay)[:300]), replay)
+                break
     # products and sums of substances used as they are: they are composites too
     from scinumtools.materials import Substance
     for i in range(n):
@@ -467,6 +530,7 @@ def correspond(ctx: Ctx):
         c["inner"] = ctx.rng.random() < 0.3
         if ctx.rng.random() < 0.4:
             c["keep"] = [ctx.rng.random() < 0.6 for _ in range(8)]
+            c["sel_first"] = ctx.rng.random() < 0.5
         cases.append(c)
     process(ctx, cases)
     history_stream(ctx, nat, allsym, 150 if thorough else 14)
